@@ -64,6 +64,14 @@ PROPS = {
         "note": "Trusted: as C03; sync.Pool behaviour is exercised, not modelled, here (see C10).",
         "assumptions": ["scanner states after a failed retrieval are only compared after Reset (they depend on Go's map iteration order)"],
     },
+    "C17": {
+        "level": "proof",
+        "design_ref": "§6 C17",
+        "technique": "Coq proof of totality (no panic, no divergence) of the parser models for every Go value, over type-switch tables regenerated from the source; range-description enumeration theorem; parser models and an independent denotation compared with the real parsers (ids compared exactly through FNV-64 in Coq), step<=0 descriptions run in a guarded child process",
+        "text": "for every Go value shape each parser/range helper model returns a result or an error (never panic/diverge), the tables regenerated from the type switches stay inside the modelled universe, and a start:end[:step] description is refused unless step>=1 and otherwise enumerates exactly start+k*step<=end; all are Coq theorems about Model/Parsers.v. The models and an independent denotation (Model/Spec.v) are compared with the real parsers on every shape x parser x direction, malformed strings, between pairs of every typing, and end to end (accepted => matchable).",
+        "note": "Trusted: Coq kernel; translator's type-switch extraction; modelled library fragments (fmt %v on integers, strconv.ParseInt, plain-decimal ParseFloat, float->int conversion for |x|<2^63) are compared with the real ones on every run but not proved. No axioms.",
+        "assumptions": ["values outside the modelled float/decimal fragment (exponent notation, |x|>=2^63, NaN/Inf) are reported as outside the theorem's domain and only checked for totality"],
+    },
 }
 
 # properties not claimed (reason); empty when everything is claimed
